@@ -67,6 +67,15 @@ fn leaves() -> Vec<Value> {
         Value::String("a".to_symbol()),
         Value::String("héllo→".to_symbol()),
         Value::String("".to_symbol()),
+        // characters an encoding may treat specially at the edges of a string
+        Value::String("tail\0".to_symbol()),
+        Value::String("\0".to_symbol()),
+        Value::String("two\0\0".to_symbol()),
+        Value::String("a\0b".to_symbol()),
+        Value::String(" lead and trail ".to_symbol()),
+        Value::String("line\nbreak\n".to_symbol()),
+        Value::String("\u{feff}bom".to_symbol()),
+        Value::String("quote\"back\\slash".to_symbol()),
         Value::Code(e),
         // a code value whose root node carries a real source location (anything the parser produces does)
         Value::Code(Expr::Literal(Literal::Int(7)).into_id(mimium_lang::utils::metadata::Location { span: 3..9, path: std::path::PathBuf::from("demo.mmm") })),
